@@ -117,6 +117,7 @@ func ruleC03(w *World, r *Report) {
 	r.Explanation = "R03.1 add/delete key agreement: the key lists of addPDR/delPDR (values and masks), addFAR/delFAR and add/del of both QER levels are equal element by element (sibling diff of provenance); R03.2 every list has the arity of the module declaration in conf/up4.bess and each element's source Go type is not wider than the declared num_bytes; constants (FAR actions, QER gates) agree with up4.bess; " +
 		"R03.2b each slot is filled from the field the statement maps to the pipeline's attr_name; R03.3 priority = K − precedence with K ≥ 2^32−1 in 32-bit unsigned arithmetic (antitone, no wrap), gate ← needDecap; FAR action table of setActionValue evaluated exhaustively over applyAction × dstIntf; qosLevel routes add and delete to the same table; " +
 		"R03.4 SetUpfInfo runs clearState on every path after the client exists and before any listener goroutine or return, clearState clears ⊇ the modules written; R03.5 every datapath write of the modification/deletion handlers is dominated by the found edge of store.GetSession, of the establishment handler by the node-id match and the allocated session; R03.6 accepted exits pass store.PutSession, modification programs create/update before remove and stores last; removed rules handed to the datapath are copies taken before the in-place shift; R03.7 a rule the session refused (Create/Update/Remove returned an error) is not handed to the datapath; R03.8 aliasing contract: the modification handler copies PDRs into the datapath list before MarkSessionQer runs, so MarkSessionQer must reorder qerIDList in place (through the shared backing array)."
+	r.Explanation += " R03.9 a finished session is deleted from the store under the key requests look it up by (local SEID = the SEID of the request header); R03.10 every Create/Update IE is parsed into a value declared (or zeroed) inside the loop."
 	r.NotDecided = "packet-level 'iff' semantics of the installed image; what BESS does with a command"
 	bc := loadBessConf(w.Repo, P)
 
@@ -253,6 +254,8 @@ func ruleC03(w *World, r *Report) {
 	ruleC03Removed(w, r)
 	ruleC03Skipped(w, r)
 	ruleC03InPlace(w, r)
+	ruleC03StoreKey(w, r)
+	ruleC03Scratch(w, r)
 }
 
 // priorityShape: conv(K - precedence) with K ≥ 2^32-1 computed in an unsigned type of ≥ 32 bits.
@@ -1027,4 +1030,104 @@ func constStringsOfElem(v ssa.Value) []string {
 		}
 	}
 	return out
+}
+
+// ruleC03StoreKey (R03.9): "requests that name an unknown session are rejected and write nothing" needs a
+// finished session to be unknown afterwards: the record is stored, looked up and deleted under one key.
+func ruleC03StoreKey(w *World, r *Report) {
+	const P = "C03"
+	remove := w.Fn(P, "pfcpiface.(*PFCPConn).RemoveSession")
+	n := 0
+	allInstrs(remove, func(i ssa.Instruction) {
+		c, ok := i.(*ssa.Call)
+		if !ok || !c.Call.IsInvoke() || c.Call.Method.Name() != "DeleteSession" {
+			return
+		}
+		n++
+		ks := symOf(c.Call.Args[0]).String()
+		r.check(ks == "PFCPSession.localSEID", "R03.9", w.FuncName(remove), "a finished session is forgotten under the key it is looked up by", w.Pos(c.Pos()), ks, "the record is deleted under "+ks+" while requests look sessions up by the local SEID: the finished session stays known, a later modification naming it is accepted and writes rules for a session that no longer exists")
+	})
+	r.floor("R03.9 DeleteSession in RemoveSession", n, 1)
+	put := w.Fn(P, "pfcpiface.(*InMemoryStore).PutSession")
+	allInstrs(put, func(i ssa.Instruction) {
+		if c, ok := i.(*ssa.Call); ok && calleeName(c) == "(*sync.Map).Store" {
+			ks := symOf(c.Call.Args[1]).String()
+			r.check(ks == "PFCPSession.localSEID", "R03.9", w.FuncName(put), "records are stored under the local SEID", w.Pos(c.Pos()), ks, "records stored under "+ks)
+		}
+	})
+	for _, hn := range []string{"pfcpiface.(*PFCPConn).handleSessionModificationRequest", "pfcpiface.(*PFCPConn).handleSessionDeletionRequest"} {
+		h := w.Fn(P, hn)
+		m := 0
+		allInstrs(h, func(i ssa.Instruction) {
+			c, ok := i.(*ssa.Call)
+			if !ok || !c.Call.IsInvoke() || c.Call.Method.Name() != "GetSession" {
+				return
+			}
+			m++
+			ks := symOf(c.Call.Args[0]).String()
+			r.check(strings.HasSuffix(ks, ".SEID(msg)"), "R03.9", hn, "the session is looked up by the SEID in the request header", w.Pos(c.Pos()), ks, "session looked up by "+ks)
+		})
+		r.floor("R03.9 GetSession in "+hn, m, 1)
+	}
+}
+
+// ruleC03Scratch (R03.10): every Create/Update IE of a request is parsed into a value of its own. The
+// parsers only set the fields the IE carries; a value that lives across iterations hands the previous
+// IE's F-TEID, addresses and masks to the next rule, which is then written under a key no request named.
+func ruleC03Scratch(w *World, r *Report) {
+	const P = "C03"
+	parsers := []*ssa.Function{
+		w.Fn(P, "pfcpiface.(*pdr).parsePDR"),
+		w.Fn(P, "pfcpiface.(*far).parseFAR"),
+		w.Fn(P, "pfcpiface.(*qer).parseQER"),
+	}
+	n := 0
+	for _, hn := range []string{"pfcpiface.(*PFCPConn).handleSessionModificationRequest", "pfcpiface.(*PFCPConn).handleSessionEstablishmentRequest"} {
+		h := w.Fn(P, hn)
+		for _, p := range parsers {
+			for _, c := range callsTo(h, p) {
+				call, ok := c.(*ssa.Call)
+				if !ok {
+					continue
+				}
+				// only call sites inside a loop
+				cb := call.Block()
+				cyc := false
+				for _, sc := range cb.Succs {
+					if reachesBlock(sc, cb) {
+						cyc = true
+					}
+				}
+				if !cyc {
+					continue
+				}
+				n++
+				al, isAl := call.Call.Args[0].(*ssa.Alloc)
+				inLoop := false
+				if isAl {
+					b := al.Block()
+					for _, sc := range b.Succs {
+						if reachesBlock(sc, b) {
+							inLoop = true
+						}
+					}
+					// or re-zeroed before every parse: a store of the zero value that dominates the call inside the loop
+					if !inLoop {
+						for _, st := range storesTo(al) {
+							if _, isC := st.Val.(*ssa.Const); isC && st.Addr == ssa.Value(al) && st.Block() != al.Block() && instrDominates(st, call) {
+								sb := st.Block()
+								for _, sc := range sb.Succs {
+									if reachesBlock(sc, sb) {
+										inLoop = true
+									}
+								}
+							}
+						}
+					}
+				}
+				r.check(isAl && inLoop, "R03.10", hn, fmt.Sprintf("%s call #%d parses into a value of its own", p.Name(), n), w.Pos(call.Pos()), "declared (or zeroed) inside the loop", "the value that receives the parsed IE lives across loop iterations: fields the next IE does not carry keep the previous IE's values, and the rule is written to the datapath with them")
+			}
+		}
+	}
+	r.floor("R03.10 in-loop parse call sites", n, 6)
 }
